@@ -153,6 +153,7 @@ def placement(x, y):
 
 def check(run):
     run.prove(MODULE, THEOREMS)
+    run.corpus(impl, spec)
     rng = run.rng
     tick = 1_000_000
     nt = run.scale(6, 8)
